@@ -62,7 +62,9 @@ def check(ctx):
     # the record block = the block containing the record of "u"
     ublocks = [(c, prog.parent(c)) for c, k, v, i in records if k == "u"]
     if not ublocks:
-        raise AnalysisError("optimize() no longer records key 'u' in the iteration history")
+        ctx.rule("R2", "one record block per iteration with one index; x = inverse(u); value keys read the incumbent", floor=7)
+        ctx.missing(opt, "record of history key 'u' (the iterate) in optimize()")
+        return
     rec_stmt = ublocks[0][1]
     rec_block = block_of(prog, rec_stmt)
     in_block = [(c, k, v, i) for c, k, v, i in records if block_of(prog, prog.parent(c)) is rec_block]
